@@ -8,6 +8,7 @@
  "defines": ["VERIF_HALLOC", "HTTP_N=24", "HTTP_BODYMAX=8", "VERIF_STRMAX=32"],
  "thorough_defines": ["HTTP_N=64", "VERIF_STRMAX=72"],
  "models": ["models/libc_string.c", "models/http_env.c"],
+ "cbmc": ["--object-bits", "9"],
  "loop_contracts": false,
  "allow_undefined": ["strtod", "strtoimax", "fprintf", "abort"],
  "timeout": 600,
